@@ -27,7 +27,8 @@ def dump_repo_mir():
     tmp = tempfile.mkdtemp(prefix="mirsym-")
     try:
         src = os.path.join(tmp, "repo")
-        shutil.copytree("/repo", src, ignore=shutil.ignore_patterns("target", ".git", "benches", "tests"))
+        # MIRSYM_DEV_SRC: development aid only (try engine M on a scratch copy while /repo is busy); registered commands never set it
+        shutil.copytree(os.environ.get("MIRSYM_DEV_SRC") or "/repo", src, ignore=shutil.ignore_patterns("target", ".git", "benches", "tests"))
         # benches are declared in Cargo.toml; keep the manifest valid without them
         mf = open(os.path.join(src, "Cargo.toml")).read()
         out = []
